@@ -359,11 +359,32 @@ impl H3Conn {
                                 let room = keep.saturating_sub(st.body.len()).min(n);
                                 st.body.extend_from_slice(&buf[..room]);
                             }
+                            // quiche reports a RESET_STREAM it meets while the body is being read as an error of
+                            // recv_body and then files the stream under "finished": the error is the truth
+                            Err(h3::Error::TransportError(quiche::Error::StreamReset(code))) => {
+                                self.streams.entry(sid).or_default().reset = Some(code);
+                                break;
+                            }
                             Err(_) => break,
                         }
                     }
                 }
-                Ok((sid, h3::Event::Finished)) => self.streams.entry(sid).or_default().finished = true,
+                Ok((sid, h3::Event::Finished)) => {
+                    // quiche's HTTP/3 layer also files a stream whose RESET_STREAM arrived after its buffered data was
+                    // read under "finished" (Connection::stream_finished is true for both): ask the transport
+                    let mut probe = [0u8; 1];
+                    let was_reset = match self.conn.stream_recv(sid, &mut probe) {
+                        Err(quiche::Error::StreamReset(code)) => Some(code),
+                        _ => None,
+                    };
+                    let st = self.streams.entry(sid).or_default();
+                    if let Some(code) = was_reset {
+                        st.reset = Some(code);
+                    }
+                    if st.reset.is_none() {
+                        st.finished = true;
+                    }
+                }
                 Ok((sid, h3::Event::Reset(code))) => self.streams.entry(sid).or_default().reset = Some(code),
                 Ok((_, h3::Event::GoAway)) => self.goaway = true,
                 Ok((_, h3::Event::PriorityUpdate)) => (),
@@ -458,6 +479,41 @@ impl H3Conn {
         let _ = self.conn.stream_shutdown(sid, quiche::Shutdown::Write, code);
         let _ = self.conn.stream_shutdown(sid, quiche::Shutdown::Read, code);
         self.flush();
+    }
+
+    /// RESET_STREAM only: the client aborts its sending part, the receiving part and the connection stay
+    pub fn reset_send(&mut self, sid: u64, code: u64) {
+        let _ = self.conn.stream_shutdown(sid, quiche::Shutdown::Write, code);
+        self.flush();
+    }
+
+    /// Raw octets on a stream (below the HTTP/3 layer: a hand-made frame, a frame cut short)
+    pub fn raw_stream_send(&mut self, sid: u64, data: &[u8], fin: bool) -> Result<usize, String> {
+        let n = self.conn.stream_send(sid, data, fin).map_err(|e| format!("stream_send: {}", e))?;
+        self.flush();
+        Ok(n)
+    }
+
+    /// An ack-eliciting packet (PING): keeps the connection busy without touching any stream
+    pub fn ping(&mut self) {
+        let _ = self.conn.send_ack_eliciting();
+        self.flush();
+    }
+
+    /// CONNECTION_CLOSE with a chosen code (application error or transport error)
+    pub fn close_with(&mut self, app: bool, code: u64, reason: &[u8]) {
+        let _ = self.conn.close(app, code, reason);
+        self.flush();
+    }
+
+    /// DER of the leaf certificate the server presented in this connection's handshake
+    pub fn peer_cert_der(&self) -> Option<Vec<u8>> {
+        self.conn.peer_cert().map(|c| c.to_vec())
+    }
+
+    /// The application protocol negotiated by the handshake
+    pub fn negotiated_alpn(&self) -> Vec<u8> {
+        self.conn.application_proto().to_vec()
     }
 
     /// CONNECTION_CLOSE (application, no error) and a short drain so the datagram leaves
